@@ -444,13 +444,13 @@ func ruleSortedLock(c *Ctx, r *Reporter) {
 				cf, _ = x.Fn.(*ssa.Function)
 			}
 			if cf != nil {
-				seqs := 0
+				on := map[ssa.Value]bool{}
 				for _, ia := range allInstrs(cf) {
 					if call, ok := ia.In.(*ssa.Call); ok && call.Call.IsInvoke() && call.Call.Method.Name() == "Seq" {
-						seqs++
+						on[call.Call.Value] = true
 					}
 				}
-				cmpOK = seqs == 2
+				cmpOK = len(cf.Params) == 2 && on[cf.Params[0]] && on[cf.Params[1]]
 			}
 		}
 		r.check(good && cmpOK, "internal.(SortableMutexes).Lock|sorted by Seq before locking", c.posStr(fn.Pos()),
